@@ -497,15 +497,55 @@ func customFor(md string, rng *rand.Rand, offKey, lenKey string) (custMd, bool) 
 	panic("unknown md class " + md)
 }
 
+// twinOf maps the seed of a write to the seed of an earlier write of the same schema class
+// to the same segment whose schema it should be a near-twin of.
+var twinOf = map[int64]int64{}
+
+// twinize changes field metadata, fixed-size-binary widths and list element names: the
+// column names, type ids and nullability stay what they were.
+func twinize(fields []arrow.Field) {
+	for i := range fields {
+		f := &fields[i]
+		if f.Metadata.Len() > 0 {
+			f.Metadata = arrow.NewMetadata([]string{"fk"}, []string{"twin"})
+		} else if i%2 == 0 {
+			f.Metadata = arrow.NewMetadata([]string{"fk"}, []string{"twin"})
+		}
+		switch t := f.Type.(type) {
+		case *arrow.FixedSizeBinaryType:
+			f.Type = &arrow.FixedSizeBinaryType{ByteWidth: t.ByteWidth + 2}
+		case *arrow.ListType:
+			e := t.ElemField()
+			e.Name = "element"
+			f.Type = arrow.ListOfField(e)
+		case *arrow.LargeListType:
+			e := t.ElemField()
+			e.Name = "element"
+			f.Type = arrow.LargeListOfField(e)
+		}
+	}
+}
+
 // newGen draws the schema and builds the columns for `total` rows.
 func newGen(sc string, rows int, md string, forceID bool, seed int64, offKey, lenKey string) *genBatch {
 	rng := rand.New(rand.NewSource(seed))
 	g := &genBatch{rows: rows}
-	g.fields, g.padCol = schemaFields(sc, rng, forceID)
+	first, twin := twinOf[seed]
+	if twin {
+		// a near-twin of the schema of an earlier write to the same segment: the same
+		// draw, then changed only in what a digest of a schema is likely to drop
+		g.fields, g.padCol = schemaFields(sc, rand.New(rand.NewSource(first)), forceID)
+		twinize(g.fields)
+	} else {
+		g.fields, g.padCol = schemaFields(sc, rng, forceID)
+	}
 	g.stripped = hasTopDict(g.fields)
 	g.padSeed = rng.Int63()
 	if rng.Intn(3) == 0 {
 		g.schemaMd = []string{"note", randString(rng)}
+	}
+	if twin {
+		g.schemaMd = []string{"note", "twin-" + randString(rng)}
 	}
 	g.custom, g.hasMd = customFor(md, rng, offKey, lenKey)
 	g.total = rows
